@@ -28,7 +28,7 @@ ASSUMPTIONS = ['faults are injected at the open() boundary of the handlelimiter 
                'gzip and the file system are trusted']
 MIN_NONTRIVIAL = {'quick': 400, 'thorough': 20000}
 REQUIRED_MONITORS = ['inj:open_attempts', 'inj:faults_fired', 'hist:writes', 'oracle:files_compared', 'inj:emfile_fired',
-                     'inj:transient_fired', 'inj:permanent_fired', 'reopen_append', 'rlimit:real_emfile_seen', 'split:bams_compared', 'inj:errno:emfile:ENFILE', 'inj:errno:transient:EIO', 'inj:errno:transient:None']
+                     'inj:transient_fired', 'inj:permanent_fired', 'reopen_append', 'rlimit:real_emfile_seen', 'split:bams_compared', 'inj:errno:emfile:ENFILE', 'inj:errno:transient:EIO', 'inj:errno:transient:None', 'hist:stale_files_present']
 EXHAUSTIVE = {'quick': False, 'thorough': True}
 SHARD_TIMEOUT = {'quick': 600, 'thorough': 7200}
 
@@ -115,10 +115,14 @@ def read_back(path, method):
         return f.read()
 
 
-def execute(hl_mod, d, seq, maxHandles, pruneEvery, method, plan, continue_after_raise=True):
+def execute(hl_mod, d, seq, maxHandles, pruneEvery, method, plan, continue_after_raise=True, stale=()):
     """Runs one write history against a fresh HandleLimiter under a fault plan.
     Returns (inj, history{path:[data]}, raised[(idx, path, exc, legit)], contents{path:str|None}, error or None)"""
     inj = Injector(dict(plan, permanent=os.path.join(d, plan['permanent']) if plan.get('permanent') else None))
+    # files left behind by an earlier run into the same directory: the first open of a path in this run replaces them
+    for fname in stale:
+        with (gzip.open(os.path.join(d, fname), 'wt') if method == 1 else builtins.open(os.path.join(d, fname), 'w')) as f:
+            f.write('@stale_record_of_an_earlier_run\n')
     inj.install(d)
     hist = {}
     raised = []
@@ -179,6 +183,9 @@ def decide(acc, seq, settings, plan, inj, hist, raised, contents, err, d):
         path = os.path.join(d, fname)
         exp = ''.join(hist.get(path, []))
         got = contents.get(path)
+        if fname in settings.get('stale_files_all', ()) and not any(ok and p_ == path for (_, p_, _, ok) in inj.opens):
+            # never opened successfully in this run: the file of the earlier run is simply still there
+            exp = '@stale_record_of_an_earlier_run\n'
         acc.count('oracle:files_compared')
         if got is None:
             if exp:
@@ -249,13 +256,17 @@ def run_case(case):
                     p['permanent'] = r.choice(files)
                 plans.append(p)
         nontriv = 0
+        stale = [f for f in files if r.random() < 0.5] if r.random() < 0.6 else []
+        acc.count('hist:stale_files_present', len(stale))
+        settings['stale_files'] = stale[:8]
+        settings['stale_files_all'] = stale
         for pi, plan in enumerate(plans):
             if plan:
                 plan['errnos'] = {'emfile': r.choice(['EMFILE', 'EMFILE', 'ENFILE']),
                                   'transient': r.choice(['EMFILE', 'EMFILE', 'ENFILE', 'EIO', 'EINTR', 'ENOMEM', 'EAGAIN', None]),
                                   'permanent': r.choice(['EMFILE', 'EACCES', 'ENOSPC'])}
             with Scratch('c19') as d:
-                inj, hist, raised, contents, err = execute(hl_mod, d, seq, settings['maxHandles'], settings['pruneEvery'], settings['method'], plan)
+                inj, hist, raised, contents, err = execute(hl_mod, d, seq, settings['maxHandles'], settings['pruneEvery'], settings['method'], plan, stale=stale)
                 if decide(acc, seq, settings, plan, inj, hist, raised, contents, err, d):
                     acc.distinct += 1
         acc.sample = {'kind': case['kind'], 'writes': len(seq), 'files': nfiles, 'settings': settings, 'fault_plans': len(plans),
